@@ -78,7 +78,7 @@ theorem ProvTie_products (s : Prov.Sess) (t : Nat) (hf : (findTask s.tasks t).is
     simp only [(slots_resolve s.w.fs tk.pprods).1, (slots_resolve s.w.fs tk.pprods).2]
 
 /-- `provisional.pytask_execute_task`: for a generator — load the kwargs, call it, fail if it defined nothing, collect what
-it defined, extend `session.tasks`, re-create the DAG unconditionally, return a result; nothing for other tasks. Session and
+it defined, raise the first collection error if one of them cannot be collected (f1fcb9a), extend `session.tasks`, re-create the DAG unconditionally, return a result; nothing for other tasks. Session and
 raised flag agree with the model's `execImpl … "provisional"` for all arguments; so does the returned result whenever
 nothing was raised. -/
 theorem ProvTie_generator (Y : YieldFn) (F : BodyFn) (s : Prov.Sess) (t : Nat) :
@@ -97,7 +97,9 @@ theorem ProvTie_generator (Y : YieldFn) (F : BodyFn) (s : Prov.Sess) (t : Nat) :
       · simp only [hfl, Bool.false_eq_true, if_false]
         by_cases hk : (Y tk.id (received tk)).isEmpty = true
         · simp [hk]
-        · simp [hk, invoke]
+        · by_cases hu : (Y tk.id (received tk)).any (·.uncollectable) = true
+          · simp [hk, hu]
+          · simp [hk, hu, invoke]
     · simp [hg, genElseReturns]
 
 /-- The generator implementation of the `firstresult` hook `pytask_execute_task` returns a result whenever it does not
@@ -114,7 +116,9 @@ theorem ProvTie_generator_result (Y : YieldFn) (s : Prov.Sess) (t : Nat) (tk : P
     · simp only [hfl, Bool.false_eq_true, if_false] at hnr ⊢
       by_cases hk : (Y tk.id (received tk)).isEmpty = true
       · simp [hk] at hnr
-      · simp [hk]
+      · by_cases hu : (Y tk.id (received tk)).any (·.uncollectable) = true
+        · simp [hk, hu] at hnr
+        · simp [hk, hu]
   · simp [hg, genElseReturns]
 
 /-- `provisional.pytask_execute_task_process_report` (arms from extract_engine): only a generator whose report is still
